@@ -2,13 +2,7 @@
    nothing, whatever store failure is injected (the guards come before the first mutation).
    [target] is the pipeline the call's resource belongs to. *)
 From Verif Require Import Api.Invariant Api.SpecWf Api.Refine.
-
-Definition guarded (p : pipeline) : bool := is_running p || negb (is_api (p_prov p)).
-
-Definition owner_pr (s : state) (r : processor) : option id :=
-  if r_ptype r =? 2 then Some (r_parent r)
-  else if r_ptype r =? 1 then option_map c_pipeline (lookup (r_parent r) (cm s))
-  else None.
+From Verif Require Export Api.Owner.
 
 Definition target (s : state) (o : op) : option id :=
   match o with
